@@ -1,0 +1,11 @@
+//go:build verif
+
+package vxfw
+
+import "git.sr.ht/~rockorager/vaxis"
+
+// Hooks for the verification harness in /verif (property C14).  Add-only, guarded
+// by the build tag "verif": re-exports of unexported functions, no logic.
+
+// VerifRender re-exports Surface.render
+func VerifRender(s Surface, win vaxis.Window, focused Widget) { s.render(win, focused) }
